@@ -79,8 +79,8 @@ func nearMiss(r *core.Rand, s string) string {
 	case 4:
 		return s + "::"
 	case 5:
-		if len(s) > 1 {
-			return s[:len(s)-1]
+		if rs := []rune(s); len(rs) > 1 {
+			return string(rs[:len(rs)-1]) // rune boundary: query strings stay valid UTF-8
 		}
 		return ""
 	default:
@@ -101,7 +101,7 @@ func (f *DataFacts) field(r *core.Rand) string {
 
 func (f *DataFacts) token(r *core.Rand) string {
 	if len(f.Tokens) == 0 || r.Chance(0.1) {
-		return core.Pick(r, []string{"", "nope", "error", "ERROR", "\xff"})
+		return core.Pick(r, []string{"", "nope", "error", "ERROR", "\ufffd"})
 	}
 	s := core.Pick(r, f.Tokens)
 	if r.Chance(0.15) {
@@ -441,3 +441,6 @@ func regexpQuoteClass(s string) string {
 	}
 	return sb.String()
 }
+
+// PrefilterLeafPartition draws a partition id for synthetic block metadata.
+func (f *DataFacts) PrefilterLeafPartition(r *core.Rand) string { return f.partition(r) }
